@@ -370,7 +370,7 @@ Lemma invB_step_holder s l s' :
   forall t, mu s' = Some t -> exists th, threads s' t = Some th /\ in_cs (t_pc th) = true.
 Proof.
   intros (A1 & A2 & A3 & A4 & A5 & A6) (T & G & B2 & C4) H.
-  step_inv H; intros x Hx; cbn_st; try discriminate;
+  step_inv H; intros x Hx; cbn_st; try discriminate Hx;
   try (inversion Hx; subst; eexists; split; [apply upd_same|reflexivity]; fail);
   try (destruct (B2 _ Hx) as (thx & Hx1 & Hx2);
        match goal with
@@ -381,10 +381,5 @@ Proof.
            eexists; split; [apply upd_same | norm_finish; cbn_st; try reflexivity; try (destruct hit; reflexivity)]
          | eexists; split; [rewrite upd_other by assumption; eassumption | assumption] ]
        end; fail).
-  4: { destruct (B2 _ Hx) as (thx & Hx1 & Hx2).
-       match goal with
-       | |- exists _, upd _ ?u _ _ = _ /\ _ =>
-         destruct (Nat.eq_dec x u) as [E|Hne] end.
-       - subst. rewrite Hth in Hx1. inversion Hx1. subst. rewrite ?Hpc in Hx2. cbn in Hx2. Show.
   Show.
 Admitted.
